@@ -100,7 +100,9 @@ JSON JSON::parse(StringReader& r, bool disable_extensions) {
     }
 
   } else if (root_type_ch == '-' || root_type_ch == '+' || isdigit(root_type_ch)) {
-    int64_t int_data;
+    // Accumulated as unsigned so that INT64_MIN ("-9223372036854775808",
+    // "-0x8000000000000000") does not overflow a signed integer on the way
+    uint64_t int_data;
     double float_data;
     bool is_int = true;
 
@@ -173,7 +175,7 @@ JSON JSON::parse(StringReader& r, bool disable_extensions) {
     }
 
     if (is_int) {
-      ret = int_data;
+      ret = static_cast<int64_t>(int_data);
     } else {
       ret = float_data;
     }
